@@ -5,6 +5,7 @@ import (
 	"go/token"
 	"go/types"
 	"sort"
+	"strings"
 
 	"golang.org/x/tools/go/ssa"
 )
@@ -130,7 +131,7 @@ func (g *Gen) emitUses(st *State) {
 	}
 	env := g.env(st, map[string]Val{})
 	for _, ax := range g.m.specs.Axioms {
-		use := !ax.IsLemma && (ax.PkgDir == "" || ax.PkgDir == g.c.PkgDir)
+		use := !ax.IsLemma && ax.PkgDir != "" && ax.PkgDir == g.c.PkgDir
 		for _, u := range g.c.Uses {
 			if u == ax.Name {
 				use = true
@@ -340,18 +341,21 @@ func (g *Gen) enterLoop(li *loopInfo) *State {
 	}
 	// state at the header: merge of entries, then havoc what the loop changes
 	st := g.mergeNoPhi(b, entries)
-	comps, all, locals := g.loopMods(li)
+	comps, dirty, all, locals := g.loopMods(li)
 	if all {
 		g.havocAll(st)
 	} else {
-		oldAlloc := ""
-		if comps["alloc"] {
-			oldAlloc = g.heapGet(st, "alloc")
-		}
+		oldAlloc := g.heapGet(st, "alloc")
 		for _, c := range sortedBoolKeys(comps) {
+			old := g.heapGet(st, c)
 			g.havocComp(st, c)
+			if c != "alloc" && !dirty[c] && strings.HasPrefix(g.compSort(c), "(Array Int ") {
+				// only objects allocated inside the loop are written: older objects keep their value
+				nw := g.heapGet(st, c)
+				g.emit(fmt.Sprintf("(assert (forall ((fr Int)) (! (=> (<= fr %s) (= (select %s fr) (select %s fr))) :pattern ((select %s fr)))))", oldAlloc, nw, old, nw))
+			}
 		}
-		if oldAlloc != "" {
+		if comps["alloc"] {
 			g.assume(st, "(>= "+g.heapGet(st, "alloc")+" "+oldAlloc+")")
 		}
 	}
@@ -523,9 +527,23 @@ func (g *Gen) scopeBlock(b *ssa.BasicBlock, vars map[string]Val, st *State) {
 // ---- blocks and instructions ----
 
 func (g *Gen) block(b *ssa.BasicBlock, st *State) {
+	g.curSt = st
 	for _, in := range b.Instrs {
+		g.curInstr = in
 		g.instr(in, st)
 	}
+}
+
+func (g *Gen) scopeBlockUpTo(b *ssa.BasicBlock, upto ssa.Instruction, vars map[string]Val, st *State) {
+	save := b.Instrs
+	for i, in := range b.Instrs {
+		if in == upto {
+			b.Instrs = b.Instrs[:i]
+			break
+		}
+	}
+	g.scopeBlock(b, vars, st)
+	b.Instrs = save
 }
 
 func (g *Gen) instr(in ssa.Instruction, st *State) {
@@ -638,7 +656,7 @@ func (g *Gen) instr(in ssa.Instruction, st *State) {
 		es := m.sortOf(x.Type().Underlying().(*types.Slice).Elem())
 		ref := g.newRef(st)
 		comp := m.compSliceHeap(es)
-		zero := "((as const (Array Int " + es + ")) " + m.zeroOf(x.Type().Underlying().(*types.Slice).Elem()) + ")"
+		zero := "((as const (Array Int " + es + ")) " + litZero(m.zeroOf(x.Type().Underlying().(*types.Slice).Elem())) + ")"
 		g.heapSet(st, comp, store(g.heapGet(st, comp), ref, zero))
 		g.setVal(x, mkSl(ref, "0", n, c), x.Type())
 	case *ssa.Convert:
@@ -668,7 +686,7 @@ func (g *Gen) instr(in ssa.Instruction, st *State) {
 		md, mv := m.compMap(ks, vs)
 		ref := g.newRef(st)
 		g.heapSet(st, md, store(g.heapGet(st, md), ref, "((as const (Array "+ks+" Bool)) false)"))
-		g.heapSet(st, mv, store(g.heapGet(st, mv), ref, "((as const (Array "+ks+" "+vs+")) "+m.zeroOf(mt.Elem())+")"))
+		g.heapSet(st, mv, store(g.heapGet(st, mv), ref, "((as const (Array "+ks+" "+vs+")) "+litZero(m.zeroOf(mt.Elem()))+")"))
 		g.setVal(x, ref, x.Type())
 	case *ssa.Range:
 		g.rangeInit(x, st)
@@ -737,7 +755,7 @@ func (g *Gen) alloc(x *ssa.Alloc, st *State) {
 	case *types.Array:
 		es := m.sortOf(u.Elem())
 		c := m.compSliceHeap(es)
-		g.heapSet(st, c, store(g.heapGet(st, c), ref, "((as const (Array Int "+es+")) "+m.zeroOf(u.Elem())+")"))
+		g.heapSet(st, c, store(g.heapGet(st, c), ref, "((as const (Array Int "+es+")) "+litZero(m.zeroOf(u.Elem()))+")"))
 	default:
 		c := m.compCell(m.sortOf(et))
 		g.heapSet(st, c, store(g.heapGet(st, c), ref, m.zeroOf(et)))
@@ -885,7 +903,7 @@ func (g *Gen) slice(x *ssa.Slice, st *State) {
 			hi = g.val(x.High).S
 		}
 		g.assert(st, "safe", "slice", and("(<= 0 "+lo+")", "(<= "+lo+" "+hi+")", "(<= "+hi+" "+sLen(xv.S)+")"), "string slice bounds in range", x.Pos())
-		g.setVal(x, mkStr(sArr(xv.S), add(sOff(xv.S), lo), sub(hi, lo)), x.Type())
+		g.setVal(x, mkStrLH(sArr(xv.S), add(sOff(xv.S), lo), add(sOff(xv.S), hi)), x.Type())
 	case *types.Pointer:
 		at := u.Elem().Underlying().(*types.Array)
 		n := fmt.Sprint(at.Len())
